@@ -572,6 +572,38 @@ class FSInterp(ResultInterp):
         h.inode = inode_of(fs, path)
         return h
 
+    _DIALECT_KEYS = ("delimiter", "quotechar", "doublequote", "skipinitialspace", "lineterminator", "quoting", "escapechar", "strict")
+
+    def _dialect_options(self, d, node):
+        import csv as _csv
+
+        from ..model import Class as _Class
+
+        def plain(v):
+            if isinstance(v, Sym) and v.name.replace("ext:", "").startswith("csv.QUOTE_"):
+                return getattr(_csv, v.name.split(".")[-1], None)
+            return v
+
+        if isinstance(d, str):
+            try:
+                real = _csv.get_dialect(d)
+            except _csv.Error:
+                return None
+            return {k: getattr(real, k) for k in self._DIALECT_KEYS if getattr(real, k, None) is not None}
+        cls = d if isinstance(d, _Class) else d.cls if isinstance(d, Obj) else None
+        if cls is None:
+            return None
+        out = {}
+        for k in self._DIALECT_KEYS:
+            for c in cls.mro():
+                ca = c.class_assigns().get(k)
+                if ca is not None:
+                    v = plain(self.eval_in_module(c.module, ca))
+                    if v is not None:
+                        out[k] = v
+                    break
+        return out
+
     def _csv_rows(self, rd) -> list:
         """The rows a csv.reader on this handle yields.  Cells without line-break characters come back as
         written; as soon as one has a carriage return or line feed the exact text (the real csv module's
@@ -579,6 +611,9 @@ class FSInterp(ResultInterp):
         fs = self.root.fs
         rows = [list(r) for r in fs.files.get(rd.h.path, [])]
         if not any(isinstance(c, str) and ("\r" in c or "\n" in c) for r in rows for c in r):
+            if rd.opts.get("skipinitialspace"):
+                # the reader drops the blanks that follow a delimiter: leading blanks of every cell are lost
+                rows = [[c.lstrip(" ") if isinstance(c, str) else c for c in r] for r in rows]
             return rows
         txt = render_text(fs, rd.h.path)
         if txt is None:
@@ -714,6 +749,15 @@ class FSInterp(ResultInterp):
                 return MemRows([[toks.get(c, c) for c in r] for r in _csv.reader(_io.StringIO(args[0].text, newline=args[0].kwargs.get("newline")), **kwargs)])
             except _csv.Error:
                 raise RaiseSignal("Error", node)
+        if name in ("csv.reader", "csv.writer") and args and isinstance(args[0], FileH) and ("dialect" in kwargs or len(args) == 2):
+            # a dialect (class with the options as attributes, an instance of one, or a registered name) spelled out
+            # as the keyword options it stands for; explicit keywords win
+            d = kwargs.get("dialect", args[1] if len(args) == 2 else None)
+            opts = self._dialect_options(d, node)
+            if opts is None:
+                return Unknown(f"{name} with an unmodelled dialect")
+            kwargs = {**opts, **{k: v for k, v in kwargs.items() if k != "dialect"}}
+            args = [args[0]]
         if name == "csv.reader" and args and isinstance(args[0], FileH):
             self.root.csv_sites.append(("reader", dict(kwargs), node, self.func.qual, args[0]))
             return CsvR(args[0], kwargs)
